@@ -44,7 +44,9 @@ def shown_ok(cfg, shown, unit, true_base, extra_abs=0.0):
     except ValueError:
         return False, None
     prec = cfg.precision(unit)
-    tol = (0.5 * 10 ** -prec) * 1.0000001 + 1e-9 * abs(shown) + extra_abs / prefix_f(p)
+    # half a unit of the displayed precision, plus one grain of internal precision in the base unit (amounts are
+    # rounded to internal precision in L / g before they are rescaled for display)
+    tol = (0.5 * 10 ** -prec) * 1.0000001 + 1e-9 * abs(shown) + (extra_abs + 1.01 * cfg.grain) / prefix_f(p)
     true_shown = true_base / prefix_f(p)
     return abs(shown - true_shown) <= tol, true_shown
 
